@@ -8,10 +8,11 @@
 #![allow(clippy::all)]
 #![allow(dead_code)]
 use algebra_mc::core::*;
-use algebra_mc::refmodel::curve::Pt;
-use algebra_mc::refmodel::fieldmodel::prime_to_u64;
+use algebra_mc::refmodel::curve::{GroupTable, Pt, SwModel};
+use algebra_mc::refmodel::fieldmodel::{prime_to_u64, FieldModel, Fp2Model};
 use algebra_mc::refmodel::zmod::*;
 use algebra_mc::toy::gen_fields::*;
+use algebra_mc::toy::gen_towers::{T13Fq2, T5Fq2, T7Fq2};
 use algebra_mc::toycurve::{SwToy, TeToy};
 use ark_ec::short_weierstrass::{self as sw, SWCurveConfig, SWFlags};
 use ark_ec::twisted_edwards::{self as te, TECurveConfig, TEFlags};
@@ -1061,6 +1062,326 @@ where
         }
     });
 }
+// ------------------------------------------------------------------------------------------
+// Points (E2): every point of toy short-Weierstrass curves over toy quadratic extension fields
+// F_p[u]/(u^2 - beta) (same curves and self-validation as c10.rs).  Format model read off
+// ff/src/fields/models/quadratic_extension.rs: c0 without flag bits, then c1 carrying the flag
+// bits in the top bits of its last byte; sign flag = "y is the larger of {y, -y}" in the order of
+// QuadExtField::cmp (c1 first, then c0).
+// ------------------------------------------------------------------------------------------
+macro_rules! ext_sw {
+    ($name:ident, $F:ty, $R:ty, $h:expr, $hinv:expr, $a:expr, $b:expr, $gx:expr, $gy:expr) => {
+        #[derive(Clone, Copy, Debug, Default, PartialEq, Eq)]
+        pub struct $name;
+        impl CurveConfig for $name {
+            type BaseField = $F;
+            type ScalarField = $R;
+            const COFACTOR: &'static [u64] = &[$h];
+            const COFACTOR_INV: $R = MontFp!($hinv);
+        }
+        impl SWCurveConfig for $name {
+            const COEFF_A: $F = $a;
+            const COEFF_B: $F = $b;
+            const GENERATOR: sw::Affine<Self> = sw::Affine::new_unchecked($gx, $gy);
+        }
+    };
+}
+macro_rules! q2 {
+    ($F:ty, $c0:expr, $c1:expr) => {
+        <$F>::new(MontFp!($c0), MontFp!($c1))
+    };
+}
+// y^2 = x^3 + (3+2u) over F_7[u]/(u^2+1): 52 = 4 * 13 points (a = 0, 2-torsion: three points with y = 0)
+ext_sw!(SwQ7A0B32, T7Fq2, D13, 4, "10", q2!(T7Fq2, "0", "0"), q2!(T7Fq2, "3", "2"), q2!(T7Fq2, "5", "1"), q2!(T7Fq2, "4", "6"));
+// y^2 = x^3 + (1+2u) over F_7[u]/(u^2+1): 61 points, prime order (a = 0, cofactor 1)
+ext_sw!(SwQ7A0B12, T7Fq2, D61, 1, "1", q2!(T7Fq2, "0", "0"), q2!(T7Fq2, "1", "2"), q2!(T7Fq2, "1", "0"), q2!(T7Fq2, "5", "3"));
+// y^2 = x^3 + u x + (1+u) over F_5[u]/(u^2-2): 34 = 2 * 17 points (a != 0, general non-residue)
+ext_sw!(SwQ5AuB11, T5Fq2, D17, 2, "9", q2!(T5Fq2, "0", "1"), q2!(T5Fq2, "1", "1"), q2!(T5Fq2, "2", "3"), q2!(T5Fq2, "1", "4"));
+// y^2 = x^3 + u x + (2+2u) over F_13[u]/(u^2-2): 172 = 4 * 43 points (a != 0, general non-residue; = SwQ13A of c03.rs)
+ext_sw!(SwQ13AuB22, T13Fq2, D43, 4, "11", q2!(T13Fq2, "0", "1"), q2!(T13Fq2, "2", "2"), q2!(T13Fq2, "9", "12"), q2!(T13Fq2, "4", "0"));
+
+/// model class of rhs(x) = x^3 + a x + b, the argument of the square root taken by decompression
+#[derive(Clone, Copy, Debug, PartialEq, Eq)]
+enum RhsCls {
+    Zero,
+    /// (c0, 0) with c0 a non-zero square of F_p: root (s, 0)
+    BaseResidue,
+    /// (c0, 0) with c0 a non-residue of F_p: still a square of F_p^2, root (0, s) with s^2 = c0 / beta
+    BaseNonResidue,
+    /// c1 != 0, a square of F_p^2
+    GeneralSquare,
+    /// c1 != 0, not a square
+    GeneralNonSquare,
+}
+
+struct ExtToy<P: SWCurveConfig> {
+    name: String,
+    f: Fp2Model,
+    m: SwModel<Fp2Model>,
+    g: GroupTable<(u64, u64)>,
+    r: u64,
+    h: u64,
+    gen: usize,
+    in_subgroup: Vec<bool>,
+    /// per x (index c0 + p c1): the points (y, oracle index) with that x
+    by_x: Vec<Vec<((u64, u64), usize)>>,
+    rhs_cls: Vec<RhsCls>,
+    _p: std::marker::PhantomData<P>,
+}
+impl<P: SWCurveConfig> ExtToy<P>
+where
+    P::ScalarField: PrimeField,
+{
+    fn fe(e: (u64, u64)) -> P::BaseField {
+        small_from::<P::BaseField>(&[e.0, e.1])
+    }
+    fn co(x: &P::BaseField) -> (u64, u64) {
+        let c = small_coeffs(x);
+        (c[0], c[1])
+    }
+    fn xi(&self, x: (u64, u64)) -> usize {
+        (x.0 + self.f.p * x.1) as usize
+    }
+    /// builds the oracle group and validates every toy parameter (None: unusable, a validation failed)
+    fn new(ctx: &mut Ctx, name: &str, f: Fp2Model) -> Option<Self> {
+        let p = f.p;
+        let sm = Small::of::<P::BaseField>();
+        ctx.validate(sm.p == p && sm.d == 2 && p > 2 && is_prime_small(p), &format!("{name}: base field is a quadratic extension of the prime field F_{p}"));
+        ctx.validate(f.beta > 0 && f.beta < p && powmod(f.beta, (p - 1) / 2, p) == p - 1, &format!("{name}: beta = {} is a non-residue of F_{p}", f.beta));
+        // the bridge model <-> library field: u^2 = beta, a few sums and products (typo guard; field arithmetic is C02's subject)
+        ctx.validate(Self::fe((0, 1)).square() == Self::fe((f.beta, 0)), &format!("{name}: u^2 = beta in the library field"));
+        let els = f.elements();
+        let probe = [els[1], els[els.len() - 1], els[els.len() / 2 + 3], (0, 1), (p - 1, 2)];
+        for a in probe {
+            for b in probe {
+                ctx.validate(Self::co(&(Self::fe(a) * Self::fe(b))) == f.mul(a, b) && Self::co(&(Self::fe(a) + Self::fe(b))) == f.add(a, b), &format!("{name}: field bridge on {a:?},{b:?}"));
+            }
+        }
+        let m = SwModel { f, a: Self::co(&P::COEFF_A), b: Self::co(&P::COEFF_B) };
+        // non-singular: 4 a^3 + 27 b^2 != 0
+        let disc = f.add(f.mul(f.from_u64(4), f.mul(m.a, f.sq(m.a))), f.mul(f.from_u64(27), f.sq(m.b)));
+        ctx.validate(!f.is_zero(disc), &format!("{name}: discriminant non-zero"));
+        let pts = m.points();
+        let n = pts.len() as u64;
+        let q = f.order();
+        let mm = m.clone();
+        let g = GroupTable::build(pts, Pt::O, move |a, b| Some(mm.add(a, b)));
+        let rl = <P::ScalarField as PrimeField>::MODULUS;
+        let r = rl.as_ref()[0];
+        ctx.validate(rl.as_ref()[1..].iter().all(|x| *x == 0) && P::COFACTOR.len() == 1, &format!("{name}: r and h fit one limb"));
+        let h = P::COFACTOR[0];
+        let d = n as i64 - (q as i64 + 1);
+        ctx.validate((d * d) as u64 <= 4 * q, &format!("{name}: Hasse bound, #E={n} q={q}"));
+        ctx.validate(is_prime_small(r) && n == h * r && h % r != 0, &format!("{name}: #E = {n} = h*r = {h}*{r}, r prime, r does not divide h"));
+        let gen_pt = Pt::A(Self::co(&P::GENERATOR.x), Self::co(&P::GENERATOR.y));
+        let Some(gen) = g.index.get(&gen_pt).copied() else {
+            ctx.validate(false, &format!("{name}: generator on the curve"));
+            return None;
+        };
+        ctx.validate(g.order(gen) == Some(r), &format!("{name}: generator has order r"));
+        let hinv = prime_to_u64(&P::COFACTOR_INV);
+        ctx.validate((hinv * h) % r == 1 % r, &format!("{name}: COFACTOR_INV = {hinv} inverts h = {h} mod r = {r}"));
+        let k = g.n().min(12);
+        let mut ok = true;
+        for a in 0..k {
+            for b in 0..k {
+                for c in 0..k {
+                    ok &= g.add[g.add[a][b]][c] == g.add[a][g.add[b][c]];
+                }
+            }
+        }
+        ctx.validate(ok, &format!("{name}: oracle law associative"));
+        let in_subgroup: Vec<bool> = (0..g.n()).map(|i| g.mul(r, i) == Some(g.id)).collect();
+        ctx.validate(in_subgroup.iter().filter(|b| **b).count() as u64 == r, &format!("{name}: subgroup has r elements"));
+        ctx.validate(h == 1 || in_subgroup.iter().any(|b| !*b), &format!("{name}: cofactor > 1 => points outside the subgroup exist"));
+        let mut by_x: Vec<Vec<((u64, u64), usize)>> = vec![Vec::new(); q as usize];
+        for (i, pt) in g.pts.iter().enumerate() {
+            if let Pt::A(x, y) = pt {
+                by_x[(x.0 + p * x.1) as usize].push((*y, i));
+            }
+        }
+        // class of rhs(x), from the model only: residues of F_p by listing the squares
+        let base_squares: Vec<bool> = (0..p).map(|c| (1..p).any(|z| z * z % p == c)).collect();
+        let mut rhs_cls = vec![RhsCls::Zero; q as usize];
+        let mut ok_roots = true;
+        for x in &els {
+            let i = (x.0 + p * x.1) as usize;
+            let rhs = m.rhs(*x);
+            let c = if rhs == (0, 0) {
+                RhsCls::Zero
+            } else if rhs.1 == 0 {
+                if base_squares[rhs.0 as usize] {
+                    RhsCls::BaseResidue
+                } else {
+                    RhsCls::BaseNonResidue
+                }
+            } else if by_x[i].is_empty() {
+                RhsCls::GeneralNonSquare
+            } else {
+                RhsCls::GeneralSquare
+            };
+            // every element of F_p is a square in F_p^2: a non-residue c0 has the roots (0, +-s), a residue (+-s, 0)
+            ok_roots &= match c {
+                RhsCls::Zero => by_x[i].len() == 1 && by_x[i][0].0 == (0, 0),
+                RhsCls::BaseResidue => by_x[i].len() == 2 && by_x[i].iter().all(|(y, _)| y.1 == 0 && y.0 != 0),
+                RhsCls::BaseNonResidue => by_x[i].len() == 2 && by_x[i].iter().all(|(y, _)| y.0 == 0 && y.1 != 0),
+                RhsCls::GeneralSquare => by_x[i].len() == 2 && by_x[i].iter().all(|(y, _)| y.0 != 0 && y.1 != 0),
+                RhsCls::GeneralNonSquare => true,
+            };
+            rhs_cls[i] = c;
+        }
+        ctx.validate(ok_roots, &format!("{name}: shape of the roots of rhs(x) per class (base-field rhs always has a root in F_p^2)"));
+        Some(ExtToy { name: name.to_string(), f, m, g, r, h, gen, in_subgroup, by_x, rhs_cls, _p: std::marker::PhantomData })
+    }
+    fn idx_aff(&self, a: &sw::Affine<P>) -> Option<usize> {
+        if a.infinity {
+            return Some(self.g.id);
+        }
+        self.g.index.get(&Pt::A(Self::co(&a.x), Self::co(&a.y))).copied()
+    }
+    /// decodes X/Z^2, Y/Z^3 with MODEL arithmetic
+    fn idx_proj(&self, q: &sw::Projective<P>) -> Option<usize> {
+        let (x, y, z) = (Self::co(&q.x), Self::co(&q.y), Self::co(&q.z));
+        if z == (0, 0) {
+            return Some(self.g.id);
+        }
+        let f = &self.f;
+        let zi = f.inv(z);
+        let zi2 = f.sq(zi);
+        self.g.index.get(&Pt::A(f.mul(x, zi2), f.mul(y, f.mul(zi2, zi)))).copied()
+    }
+    /// the root selected by the sign flag: 0x80 = the larger of {y, -y} in the order (c1, then c0)
+    fn pick(&self, x: (u64, u64), fm: u8) -> Option<((u64, u64), usize)> {
+        let ys = &self.by_x[self.xi(x)];
+        let key = |e: &&((u64, u64), usize)| (e.0 .1, e.0 .0);
+        if fm == 0x80 {
+            ys.iter().max_by_key(key).copied()
+        } else {
+            ys.iter().min_by_key(key).copied()
+        }
+    }
+}
+
+/// model bytes of a point over F_p^2 (None = identity)
+fn sw_ext_small_bytes(m: &Small, pt: Option<((u64, u64), (u64, u64))>, compress: bool, out: &mut [u8]) -> usize {
+    let (x, y, mask) = match pt {
+        None => ((0, 0), (0, 0), 0x40u8),
+        Some((x, y)) => {
+            let ny = ((m.p - y.0) % m.p, (m.p - y.1) % m.p);
+            (x, y, if (y.1, y.0) > (ny.1, ny.0) { 0x80 } else { 0 })
+        }
+    };
+    if compress {
+        m.enc(&[x.0, x.1], 2, mask, out)
+    } else {
+        let n = m.enc(&[x.0, x.1], 0, 0, out);
+        n + m.enc(&[y.0, y.1], 2, mask, &mut out[n..])
+    }
+}
+
+fn sw_ext_points<P: SWCurveConfig>(ctx: &mut Ctx, name: &str, f: Fp2Model)
+where
+    P::ScalarField: PrimeField,
+{
+    let Some(t) = ExtToy::<P>::new(ctx, name, f) else { return };
+    let t = &t;
+    let p = f.p;
+    let m = Small::new(p, 2);
+    let n = t.g.n() as u64;
+    let q = f.order();
+    let els = f.elements();
+    let els = &els;
+    // variants: 0 affine, 1 projective z = 1, 2.. projective with every z of F_q^* (identity: junk coordinates)
+    let nv = 2 + (q - 1);
+    let (gx, gy) = match t.g.pts[t.gen] {
+        Pt::A(x, y) => (x, y),
+        Pt::O => unreachable!(),
+    };
+    let fe = |e: (u64, u64)| ExtToy::<P>::fe(e);
+    let beta_minus_one = f.beta == p - 1;
+    ctx.sweep(&format!("points_ext_toy/{name}"), n * nv * 4, |i, loc| {
+        let [ip, var, mode] = unrank(i, [n, nv, 4]);
+        let ip = ip as usize;
+        let (cm, vm) = MODES[mode as usize];
+        let compress = cm == Compress::Yes;
+        let pt = match t.g.pts[ip] {
+            Pt::O => None,
+            Pt::A(x, y) => Some((x, y)),
+        };
+        let in_sub = t.in_subgroup[ip];
+        let z = if var >= 2 { els[(var - 1) as usize] } else { (1, 0) }; // els[0] = 0 is skipped
+        let (aff, proj): (Option<sw::Affine<P>>, Option<sw::Projective<P>>) = match (pt, var) {
+            (None, 0) => (Some(sw::Affine::identity()), None),
+            (None, 1) => (Some(sw::Affine { x: fe((5 % p, 1)), y: fe((3, 2)), infinity: true }), None),
+            (None, 2) => (None, Some(sw::Projective::new_unchecked(fe((1, 0)), fe((1, 0)), fe((0, 0))))),
+            (None, 3) => (None, Some(sw::Projective::new_unchecked(fe((0, 0)), fe((0, 0)), fe((0, 0))))),
+            (None, 4) => (None, Some(sw::Projective::new_unchecked(fe(gx), fe(gy), fe((0, 0))))),
+            (None, v) => (None, Some(sw::Projective::new_unchecked(fe(els[(v % q) as usize]), fe(els[((3 * v + 1) % q) as usize]), fe((0, 0))))),
+            (Some(_), 0) => (Some(sw::Affine::new_unchecked(fe(pt.unwrap().0), fe(pt.unwrap().1))), None),
+            (Some((x, y)), _) => {
+                // Jacobian representative (x z^2, y z^3, z) by model arithmetic
+                let z2 = f.sq(z);
+                (None, Some(sw::Projective::new_unchecked(fe(f.mul(x, z2)), fe(f.mul(y, f.mul(z2, z))), fe(z))))
+            }
+        };
+        let neg = |y: (u64, u64)| ((p - y.0) % p, (p - y.1) % p);
+        loc.class_if(pt.is_none(), "ext:identity");
+        loc.class_if(pt.is_none() && (var == 1 || var >= 3), "ext:identity_junk_coordinates");
+        loc.class_if(matches!(pt, Some((_, (0, 0)))), "ext:y=0_tie");
+        loc.class_if(matches!(pt, Some((_, y)) if y.1 != 0 && y.1 > neg(y).1), "ext:y>-y_decided_by_c1");
+        loc.class_if(matches!(pt, Some((_, y)) if y.1 == 0 && y.0 != 0 && y.0 > neg(y).0), "ext:y>-y_decided_by_c0");
+        loc.class_if(matches!(pt, Some((_, y)) if y != (0, 0) && (y.1, y.0) < (neg(y).1, neg(y).0)), "ext:y<-y");
+        loc.class_if(pt.is_some() && var >= 2 && z != (1, 0), "ext:proj_z!=1");
+        loc.class_if(pt.is_some() && var >= 2 && z.1 != 0, "ext:proj_z_outside_base_field");
+        loc.class_if(!in_sub, "ext:point_outside_subgroup");
+        loc.class_if(beta_minus_one, "ext:beta=-1");
+        loc.class_if(!beta_minus_one, "ext:beta!=-1");
+        let mut want = [0u8; 24];
+        let wl = sw_ext_small_bytes(&m, pt, compress, &mut want);
+        let want = &want[..wl];
+        let what = || format!("{name} point #{ip} {pt:?} variant {var} (z = {z:?}) {}", mode_name(mode as usize));
+        if loc.sampling() {
+            loc.sample(format!("{} model bytes {}", what(), hex(want)));
+        }
+        if let Some(a) = &aff {
+            check_ser(loc, "sw_ext_affine/serialize", &what, a, cm, want);
+        }
+        if let Some(pj) = &proj {
+            check_ser(loc, "sw_ext_projective/serialize", &what, pj, cm, want);
+        }
+        // read back (with one trailing byte that must stay unread)
+        let mut ext = want.to_vec();
+        ext.push(0xa5);
+        let expect_ok = vm == Validate::No || in_sub;
+        let mut rd = CountReader::new(&ext);
+        let ga = sw::Affine::<P>::deserialize_with_mode(&mut rd, cm, vm);
+        let pos_a = rd.pos;
+        let mut rd = CountReader::new(&ext);
+        let gp = sw::Projective::<P>::deserialize_with_mode(&mut rd, cm, vm);
+        let pos_p = rd.pos;
+        if expect_ok {
+            let ia = ga.as_ref().ok().and_then(|a| t.idx_aff(a));
+            let exact = match (&ga, pt) {
+                (Ok(a), None) => a.infinity,
+                (Ok(a), Some((x, y))) => !a.infinity && ExtToy::<P>::co(&a.x) == x && ExtToy::<P>::co(&a.y) == y,
+                _ => false,
+            };
+            loc.check_at("sw_ext_affine/deserialize", ia == Some(ip) && exact && pos_a == wl, || {
+                format!("{}: bytes {} read back as {:?} (oracle index {ia:?}), consumed {pos_a}", what(), hex(want), ga.as_ref().map_err(|e| e.to_string()))
+            });
+            let ipj = gp.as_ref().ok().and_then(|pj| t.idx_proj(pj));
+            loc.check_at("sw_ext_projective/deserialize", ipj == Some(ip) && pos_p == wl, || {
+                format!("{}: bytes {} read back as {:?} (oracle index {ipj:?}), consumed {pos_p}", what(), hex(want), gp.as_ref().map_err(|e| e.to_string()))
+            });
+        } else {
+            // a curve point outside the prime-order subgroup is not a valid group element: checked modes refuse it
+            loc.check_at("sw_ext_affine/deserialize_checked_outside_subgroup", ga.is_err() && gp.is_err(), || {
+                format!("{}: bytes {} of a point outside the subgroup accepted by a checked mode: {:?} / {:?}", what(), hex(want), ga.as_ref().map_err(|e| e.to_string()), gp.as_ref().map_err(|e| e.to_string()))
+            });
+        }
+    });
+}
+
 macro_rules! toy_sw {
     ($P:ty, $name:expr, $ctx:expr) => {
         sw_toy_points::<$P>($ctx, $name);
@@ -1628,6 +1949,18 @@ fn main() {
         "zcash_format",
         "point_outside_subgroup",
         "proj_z!=1",
+        // points of toy curves over quadratic extension fields
+        "ext:identity",
+        "ext:identity_junk_coordinates",
+        "ext:y=0_tie",
+        "ext:y>-y_decided_by_c1",
+        "ext:y>-y_decided_by_c0",
+        "ext:y<-y",
+        "ext:proj_z!=1",
+        "ext:proj_z_outside_base_field",
+        "ext:point_outside_subgroup",
+        "ext:beta=-1",
+        "ext:beta!=-1",
     ]);
     ctx.assume("oracle: byte-level format model on u64 / num-bigint (LE integer per base-prime-field coefficient, flags in the top bits of the last byte of the last coefficient; SW = x [|| y] + SWFlags, TE = y + TEFlags | x || y; BLS12-381 = zcash big-endian); element <-> integer conversions (From<u64>, into_bigint) are C01/C02's subject");
     ctx.assume("documented conventions encoded: sign flag = 'y (resp. x) is the lexicographically larger of the two roots' (highest coefficient first); identity is serialized as x = 0 (y = 0) + infinity flag; a checked mode refuses curve points outside the prime-order subgroup (they are not group elements of the type), so their round trip is only demanded in the unchecked modes");
@@ -1668,6 +2001,12 @@ fn main() {
     // ---- points (E)
     algebra_mc::toy_sw_curves!(toy_sw, &mut ctx);
     algebra_mc::toy_te_curves!(toy_te, &mut ctx);
+    // ---- points (E2): toy curves over quadratic extension fields
+    ctx.bound("points_ext_toy", "every point of 4 toy curves over F_49 (a = 0: cofactor 4 with 2-torsion; prime order 61), F_25 = F_5[u]/(u^2-2) (a = u, cofactor 2), F_169 = F_13[u]/(u^2-2) (a = u, cofactor 4) x {affine, projective with every Z of F_q^*; identity: affine with junk coordinates, Z = 0 with junk X, Y} x 4 modes x {Affine, Projective} readers");
+    sw_ext_points::<SwQ7A0B32>(&mut ctx, "SwQ7A0B32", Fp2Model { p: 7, beta: 6 });
+    sw_ext_points::<SwQ7A0B12>(&mut ctx, "SwQ7A0B12", Fp2Model { p: 7, beta: 6 });
+    sw_ext_points::<SwQ5AuB11>(&mut ctx, "SwQ5AuB11", Fp2Model { p: 5, beta: 2 });
+    sw_ext_points::<SwQ13AuB22>(&mut ctx, "SwQ13AuB22", Fp2Model { p: 13, beta: 2 });
     // ---- points (A)
     shipped_points(&mut ctx);
     std::process::exit(ctx.finish());
